@@ -2456,9 +2456,8 @@ def rule_pair1(ctx):
         elif isinstance(core, ast.Attribute) and core.attr in ("T", "H") \
                 and isinstance(core.value, ast.Name):
             base = core.value.id
-        if base is None or not st.targets[0].id.lower().endswith("inv"):
+        if base is None:
             continue
-        n_a += 1
         src = None
         for d in ast.walk(f.node):
             if isinstance(d, ast.Assign) and isinstance(d.value, ast.Call):
@@ -2466,6 +2465,9 @@ def rule_pair1(ctx):
                          if isinstance(x, ast.Name)]
                 if base in names and d.lineno <= st.lineno:
                     src = dotted(d.value.func).split(".")[-1]
+        if src not in _ORTHONORMAL and src not in ("eig", "eigvals"):
+            continue          # not the eigenvector matrix of a solver
+        n_a += 1
         inst = f"diagonalize_form:{st.targets[0].id}"
         if src in _ORTHONORMAL:
             r.ok("PAIR1", inst, loc(f, st), norm_stmt(st)[:80],
@@ -2481,9 +2483,6 @@ def rule_pair1(ctx):
                 "(every Coxeter diagram with a symmetry), so the transpose "
                 "is not the inverse and W^T B W is not diagonal",
                 instance=inst)
-        else:
-            r.note("PAIR1", loc(f, st), norm_stmt(st)[:80],
-                   f"source of `{base}` not recognised (not judged)")
     # (b)
     pair = None
     for rt in ast.walk(f.node):
@@ -2674,3 +2673,533 @@ def rule_nanflow1(ctx):
     if n == 0:
         r.ok("NANFLOW1", "hyperbolic.py", HYP, "",
              "no object is built from a sphere centre")
+
+
+# ---------------------------------------------------------------------------
+# DEFER1 / RESPLIT1 (round 11: defects found by the hunters)
+
+
+def _deferring_params(f):
+    """{param: 'self.X'} for `if p is None: p = <expr mentioning self>`."""
+    out = {}
+    params = set(f.params)
+    for n in ast.walk(f.node):
+        if not (isinstance(n, ast.If) and isinstance(n.test, ast.Compare)
+                and len(n.test.ops) == 1
+                and isinstance(n.test.ops[0], ast.Is)
+                and isinstance(n.test.left, ast.Name)
+                and n.test.left.id in params
+                and isinstance(n.test.comparators[0], ast.Constant)
+                and n.test.comparators[0].value is None):
+            continue
+        for b in n.body:
+            if isinstance(b, ast.Assign) and len(b.targets) == 1 \
+                    and isinstance(b.targets[0], ast.Name) \
+                    and b.targets[0].id == n.test.left.id \
+                    and any(isinstance(x, ast.Name) and x.id == "self"
+                            for x in ast.walk(b.value)):
+                out[n.test.left.id] = dotted(b.value)
+    return out
+
+
+def _param_default(f, name):
+    """-> ('none'|'const'|'required'|'other', node)"""
+    a = f.node.args
+    pos = a.posonlyargs + a.args
+    for p, d in zip(pos[len(pos) - len(a.defaults):], a.defaults):
+        if p.arg == name:
+            if isinstance(d, ast.Constant):
+                return ("none" if d.value is None else "const", d)
+            return ("other", d)
+    for p, d in zip(a.kwonlyargs, a.kw_defaults):
+        if p.arg == name:
+            if d is None:
+                return ("required", None)
+            if isinstance(d, ast.Constant):
+                return ("none" if d.value is None else "const", d)
+            return ("other", d)
+    return ("required", None)
+
+
+def rule_defer1(ctx, rel, cls_name):
+    r = ctx.r
+    r.rule("DEFER1", "a parameter that means 'None = use the setting of this "
+                     "object' (`if p is None: p = self.<setting>`) keeps that "
+                     "meaning through the methods that forward to it: a "
+                     "method handing ITS parameter on to such a parameter "
+                     "declares it with the default None (or without a "
+                     "default). A constant default (True) makes the object's "
+                     "setting unreachable through that method -- "
+                     "`rep[word]` parses character by character whatever "
+                     "`parse_simple` the representation was built with")
+    cls = ctx.p.get_class(rel, cls_name)
+    methods = {f.name: f for f in ctx.p.all_functions
+               if f.cls is not None and f.cls.name == cls.name
+               and f.module is cls.module}
+    deferring = {}
+    for f in methods.values():
+        for p, src in _deferring_params(f).items():
+            deferring[(f.name, p)] = src
+    if not deferring:
+        r.note("DEFER1", f"{rel}", cls_name,
+               "no `if p is None: p = self.<setting>` parameter in this "
+               "class (not judged)")
+        return
+    n_sites = 0
+    changed = True
+    reported = set()
+    while changed:
+        changed = False
+        for f in methods.values():
+            for c in ast.walk(f.node):
+                if not (isinstance(c, ast.Call)
+                        and isinstance(c.func, ast.Attribute)
+                        and isinstance(c.func.value, ast.Name)
+                        and c.func.value.id == "self"
+                        and c.func.attr in methods):
+                    continue
+                g = methods[c.func.attr]
+                gparams = [p for p in g.params if p != "self"]
+                bound = {}
+                for i, a in enumerate(c.args):
+                    if i < len(gparams) and not isinstance(a, ast.Starred):
+                        bound[gparams[i]] = a
+                for k in c.keywords:
+                    if k.arg:
+                        bound[k.arg] = k.value
+                for p, a in bound.items():
+                    if (g.name, p) not in deferring:
+                        continue
+                    if not (isinstance(a, ast.Name) and a.id in f.params
+                            and a.id != "self"):
+                        continue
+                    # is the forwarded parameter reassigned before the call?
+                    if any(isinstance(s, (ast.Assign, ast.AugAssign))
+                           and any(isinstance(t, ast.Name) and t.id == a.id
+                                   for t in ast.walk(s)
+                                   if isinstance(getattr(t, "ctx", None),
+                                                 ast.Store))
+                           for s in ast.walk(f.node)):
+                        continue
+                    kind, d = _param_default(f, a.id)
+                    key = (f.name, a.id, g.name, p)
+                    if kind in ("none", "required"):
+                        if (f.name, a.id) not in deferring:
+                            deferring[(f.name, a.id)] = deferring[(g.name, p)]
+                            changed = True
+                        if key not in reported:
+                            reported.add(key)
+                            n_sites += 1
+                            r.analysed(f)
+                            r.ok("DEFER1", f"{f.qualname}:{a.id}", loc(f, c),
+                                 dotted(c)[:80],
+                                 f"`{a.id}` (default {kind}) is forwarded to "
+                                 f"{g.name}({p}=None -> "
+                                 f"{deferring[(g.name, p)]})")
+                    elif kind == "const" and key not in reported:
+                        reported.add(key)
+                        n_sites += 1
+                        r.analysed(f)
+                        r.violation(
+                            "DEFER1", f"{f.fq}|{a.id}->{g.name}.{p}",
+                            loc(f, d), f"{a.id}={dotted(d)}",
+                            f"{f.qualname} declares `{a.id}={dotted(d)}` and "
+                            f"hands it to {g.name}(.., {p}), where None "
+                            f"means `{deferring[(g.name, p)]}`: called with "
+                            f"its defaults ({'`obj[word]`' if f.name == 'element' else 'the usual call'}) "
+                            "the method never consults the object's own "
+                            "setting, so a representation built with "
+                            "parse_simple=False reads the generator name "
+                            "'ab' as a*b and raises KeyError on 'a1*b1'",
+                            instance=f"{f.qualname}:{a.id}")
+    if n_sites == 0:
+        r.note("DEFER1", rel, cls_name,
+               "no method forwards its own parameter to a deferring "
+               "parameter (nothing to judge)")
+
+
+def rule_resplit1(ctx, rel):
+    r = ctx.r
+    r.rule("RESPLIT1", "re.split returns an EMPTY string for the empty "
+                       "input, before a leading delimiter, after a trailing "
+                       "one and between adjacent delimiters ('(a1)(b1)' -> "
+                       "['', 'a1', '', 'b1', '']); a token list that is "
+                       "looked up in the generator table drops them (a "
+                       "comprehension / filter with a truth test). "
+                       "Otherwise the empty word -- the identity -- and "
+                       "every parenthesised word raise KeyError('')")
+    mod = ctx.p.module_by_rel(rel)
+    n = 0
+    for f in ctx.p.all_functions:
+        if f.module is not mod:
+            continue
+        defs = single_defs(f.node)
+        for rt in ast.walk(f.node):
+            if not (isinstance(rt, ast.Return) and rt.value is not None):
+                continue
+            v = rt.value
+            hops = 0
+            while isinstance(v, ast.Name) and v.id in defs and hops < 4:
+                v = defs[v.id]
+                hops += 1
+            splits = [c for c in ast.walk(v) if isinstance(c, ast.Call)
+                      and dotted(c.func) in ("re.split",)]
+            if not splits:
+                continue
+            n += 1
+            r.analysed(f)
+            filtered = False
+            # [t for t in re.split(..) if t] / if t != "" / if len(t) > 0
+            if isinstance(v, (ast.ListComp, ast.GeneratorExp)) \
+                    and any(g.ifs for g in v.generators):
+                filtered = True
+            if isinstance(v, ast.Call) and dotted(v.func) in ("list", "tuple") \
+                    and v.args:
+                inner = v.args[0]
+                if isinstance(inner, ast.Call) and dotted(inner.func) == \
+                        "filter":
+                    filtered = True
+                if isinstance(inner, (ast.ListComp, ast.GeneratorExp)) \
+                        and any(g.ifs for g in inner.generators):
+                    filtered = True
+            if isinstance(v, ast.Call) and dotted(v.func) == "filter":
+                filtered = True
+            # re.findall-style rewrite has no re.split and is not judged
+            if filtered:
+                r.ok("RESPLIT1", f"{f.qualname}:re.split", loc(f, rt),
+                     dotted(v)[:80], "empty tokens are dropped")
+            else:
+                r.violation(
+                    "RESPLIT1", f"{f.fq}|re.split", loc(f, rt),
+                    dotted(v)[:100],
+                    f"{f.qualname} returns the raw result of re.split: for "
+                    "the empty word it is [''] and for '(a1)(b1)' it is "
+                    "['', 'a1', '', 'b1', '']; _word_value looks every "
+                    "token up in self.generators and raises KeyError(''), "
+                    "so the identity has no image and the reserved "
+                    "parentheses cannot be used",
+                    instance=f"{f.qualname}:re.split")
+    if n == 0:
+        r.note("RESPLIT1", rel, "re.split",
+               "no function returns a re.split token list (not judged)")
+
+
+def rule_genacc1(ctx, rel):
+    r = ctx.r
+    r.rule("GENACC1", "inside a loop over generator NAMES (`for g in "
+                      "<rep>.asym_gens()` / `.generators`) the image of the "
+                      "generator is read from the table, "
+                      "`<rep>.generators[g]`. `<rep>[g]` is something else: "
+                      "it evaluates the WORD g -- parsed with the "
+                      "representation's parse setting (a fresh "
+                      "Representation() parses character by character, so "
+                      "the generator 'ab' becomes a*b) and wrapped by "
+                      "wrap_func (a Transformation object for a projective "
+                      "representation, which np.tensordot cannot multiply)")
+    mod = ctx.p.module_by_rel(rel)
+    n = 0
+    for f in ctx.p.all_functions:
+        if f.module is not mod or f.cls is None:
+            continue
+        for loop in ast.walk(f.node):
+            if not (isinstance(loop, ast.For)
+                    and isinstance(loop.target, ast.Name)):
+                continue
+            it = loop.iter
+            over_names = (isinstance(it, ast.Call)
+                          and isinstance(it.func, ast.Attribute)
+                          and it.func.attr == "asym_gens") or \
+                (isinstance(it, ast.Attribute) and it.attr == "generators")
+            if not over_names:
+                continue
+            g = loop.target.id
+            for sub in ast.walk(loop):
+                if not (isinstance(sub, ast.Subscript)
+                        and isinstance(sub.ctx, ast.Load)
+                        and isinstance(sub.slice, ast.Name)
+                        and sub.slice.id == g):
+                    continue
+                n += 1
+                r.analysed(f)
+                base = sub.value
+                if isinstance(base, ast.Attribute) and base.attr in (
+                        "generators", "_generators"):
+                    r.ok("GENACC1", f"{f.qualname}:{dotted(sub)}",
+                         loc(f, sub), dotted(sub),
+                         "the stored matrix of the generator")
+                    continue
+                if not isinstance(base, ast.Name):
+                    continue
+                r.violation(
+                    "GENACC1", f"{f.fq}|{dotted(base)}[.]", loc(f, sub),
+                    dotted(sub),
+                    f"`{dotted(sub)}` evaluates the generator name as a "
+                    f"word of `{dotted(base)}` (parse setting, wrap_func) "
+                    "instead of reading its stored matrix: with generators "
+                    "'a', 'b', 'ab' the symmetric square of 'ab' is built "
+                    "from a@b; with names 'a1', 'b1' it is a KeyError; for a "
+                    "ProjectiveRepresentation it is a TypeError in "
+                    "np.tensordot", instance=f"{f.qualname}:{dotted(base)}[g]")
+    if n == 0:
+        r.note("GENACC1", rel, "generator loops",
+               "no loop over generator names reads an image by subscript "
+               "(not judged)")
+
+
+def rule_fwd1(ctx, rel):
+    r = ctx.r
+    r.rule("FWD1", "a wrapper factory that takes `*args` / `**kwargs` for "
+                   "the wrapped map hands BOTH to it in every closure it "
+                   "returns: the two branches of lie.hom._wrap_hom (maps "
+                   "with and without an `inv` parameter) differ only in "
+                   "`inv`. A closure that calls `hom(mat, *args)` silently "
+                   "drops bilinear_form= / like= / dtype=: "
+                   "hom.so21_to_sl2(bilinear_form=F) evaluates the map for "
+                   "diag(-1,1,1) and is not multiplicative on O(F)")
+    mod = ctx.p.module_by_rel(rel)
+    n = 0
+    for f in ctx.p.all_functions:
+        if f.module is not mod:
+            continue
+        a = f.node.args
+        if a.vararg is None and a.kwarg is None:
+            continue
+        fparams = {x.arg for x in a.posonlyargs + a.args + a.kwonlyargs}
+        inner = [d for d in ast.walk(f.node)
+                 if isinstance(d, (ast.FunctionDef, ast.Lambda))
+                 and d is not f.node]
+        for d in inner:
+            own = {x.arg for x in d.args.posonlyargs + d.args.args
+                   + d.args.kwonlyargs}
+            for c in ast.walk(d):
+                if not (isinstance(c, ast.Call)
+                        and isinstance(c.func, ast.Name)
+                        and c.func.id in fparams and c.func.id not in own):
+                    continue
+                n += 1
+                r.analysed(f)
+                missing = []
+                if a.vararg is not None and not any(
+                        isinstance(x, ast.Starred)
+                        and isinstance(x.value, ast.Name)
+                        and x.value.id == a.vararg.arg for x in c.args):
+                    missing.append("*" + a.vararg.arg)
+                if a.kwarg is not None and not any(
+                        k.arg is None and isinstance(k.value, ast.Name)
+                        and k.value.id == a.kwarg.arg for k in c.keywords):
+                    missing.append("**" + a.kwarg.arg)
+                key = f"{f.qualname}:{dotted(c)[:50]}"
+                if not missing:
+                    r.ok("FWD1", key, loc(f, c), dotted(c)[:80],
+                         "forwards every variadic of the factory")
+                else:
+                    r.violation(
+                        "FWD1", f"{f.fq}|{'+'.join(missing)}", loc(f, c),
+                        dotted(c)[:100],
+                        f"this closure of {f.qualname} calls the wrapped map "
+                        f"without {' and '.join(missing)}: the options given "
+                        "to the factory (bilinear_form=, like=, dtype=) are "
+                        "dropped for every map that has no `inv` parameter "
+                        "-- o_to_pgl, sl2_to_so21, slc_to_slr, sl2c_to_so31 "
+                        "-- so the wrapped map is not the homomorphism the "
+                        "caller configured",
+                        instance=f"{f.qualname}:{'+'.join(missing)}")
+    if n == 0:
+        r.note("FWD1", rel, "wrapper factories",
+               "no closure calls a parameter of a variadic factory "
+               "(not judged)")
+
+
+# ---------------------------------------------------------------------------
+# HOMDIV1: denominators homogeneous in the representatives
+
+
+def _deg_add(a, b):
+    return tuple(x + y for x, y in zip(a, b))
+
+
+def _degset(e, defs, param, nrows, depth=0):
+    """Set of multidegrees (one entry per row of `param`) of the monomials
+    of expression e, or None when not determined."""
+    Z = (0,) * nrows
+    if depth > 12:
+        return None
+    if isinstance(e, ast.Constant) and isinstance(e.value, (int, float)):
+        return frozenset([Z])
+    if isinstance(e, ast.Name):
+        if e.id in defs:
+            return _degset(defs[e.id], defs, param, nrows, depth + 1)
+        return None
+    if isinstance(e, ast.UnaryOp) and isinstance(e.op, (ast.USub, ast.UAdd)):
+        return _degset(e.operand, defs, param, nrows, depth + 1)
+    if isinstance(e, ast.Subscript):
+        idx = e.slice.elts if isinstance(e.slice, ast.Tuple) else [e.slice]
+        base = e.value
+        ints = [const_value(i) for i in idx
+                if isinstance(const_value(i), int)
+                and not isinstance(const_value(i), bool)]
+        rest = [i for i in idx if not (isinstance(const_value(i), int)
+                                       and not isinstance(const_value(i),
+                                                          bool))]
+        passthrough = all(
+            (isinstance(i, ast.Constant) and i.value in (Ellipsis, None))
+            or (isinstance(i, ast.Slice) and i.lower is None
+                and i.upper is None)
+            or dotted(i) == "np.newaxis" for i in rest)
+        if not passthrough:
+            return None
+        b = base
+        hops = 0
+        while isinstance(b, ast.Name) and b.id in defs and hops < 4:
+            b = defs[b.id]
+            hops += 1
+        if isinstance(b, ast.Name) and b.id == param:
+            if not ints:
+                return None
+            if len(ints) == 1 and 0 <= ints[0] < nrows:
+                return frozenset([tuple(int(k == ints[0])
+                                        for k in range(nrows))])
+            return None
+        if _is_gram(b, param):
+            if len(ints) == 2 and all(0 <= i < nrows for i in ints):
+                d = [0] * nrows
+                d[ints[0]] += 1
+                d[ints[1]] += 1
+                return frozenset([tuple(d)])
+            return None
+        if not ints:
+            return _degset(base, defs, param, nrows, depth + 1)
+        return None
+    if isinstance(e, ast.BinOp):
+        a = _degset(e.left, defs, param, nrows, depth + 1)
+        b = _degset(e.right, defs, param, nrows, depth + 1)
+        if isinstance(e.op, ast.Pow):
+            k = const_value(e.right)
+            if a is None or not isinstance(k, (int, float)):
+                return None
+            if len(a) == 1:
+                return frozenset([tuple(x * k for x in next(iter(a)))])
+            if k == 2:
+                return frozenset(_deg_add(x, y) for x in a for y in a)
+            return None
+        if a is None or b is None:
+            return None
+        if isinstance(e.op, (ast.Add, ast.Sub)):
+            return a | b
+        if isinstance(e.op, ast.Mult):
+            return frozenset(_deg_add(x, y) for x in a for y in b)
+        if isinstance(e.op, ast.Div):
+            if len(b) != 1:
+                return None
+            d = next(iter(b))
+            return frozenset(tuple(x - y for x, y in zip(m, d)) for m in a)
+        return None
+    if isinstance(e, ast.Call):
+        fn = dotted(e.func)
+        if fn in ("np.sqrt", "np.emath.sqrt") and e.args:
+            a = _degset(e.args[0], defs, param, nrows, depth + 1)
+            if a is not None and len(a) == 1:
+                return frozenset([tuple(x / 2 for x in next(iter(a)))])
+            return None
+        if fn in ("np.abs", "np.absolute", "np.real", "np.conjugate") \
+                and e.args:
+            a = _degset(e.args[0], defs, param, nrows, depth + 1)
+            return a if a is not None and len(a) == 1 else None
+        if fn == "np.where" and len(e.args) == 3:
+            a = _degset(e.args[1], defs, param, nrows, depth + 1)
+            b = _degset(e.args[2], defs, param, nrows, depth + 1)
+            if a is not None and a == b and len(a) == 1:
+                return a
+            return None
+        if fn in ("np.expand_dims", "np.squeeze") and e.args:
+            return _degset(e.args[0], defs, param, nrows, depth + 1)
+        if fn == "utils.apply_bilinear" and len(e.args) >= 2:
+            a = _degset(e.args[0], defs, param, nrows, depth + 1)
+            b = _degset(e.args[1], defs, param, nrows, depth + 1)
+            if a is None or b is None:
+                return None
+            return frozenset(_deg_add(x, y) for x in a for y in b)
+    return None
+
+
+def _is_gram(e, param):
+    """P @ F @ P.swapaxes(-1, -2) (any bracketing) with P the parameter."""
+    if not (isinstance(e, ast.BinOp) and isinstance(e.op, ast.MatMult)):
+        return False
+    leaves = []
+
+    def flat(x):
+        if isinstance(x, ast.BinOp) and isinstance(x.op, ast.MatMult):
+            flat(x.left)
+            flat(x.right)
+        else:
+            leaves.append(x)
+    flat(e)
+    if len(leaves) != 3:
+        return False
+    first, last = leaves[0], leaves[-1]
+    return isinstance(first, ast.Name) and first.id == param \
+        and isinstance(last, ast.Call) \
+        and isinstance(last.func, ast.Attribute) \
+        and last.func.attr in ("swapaxes", "transpose") \
+        and isinstance(last.func.value, ast.Name) \
+        and last.func.value.id == param
+
+
+HOMDIV_ROWS = [
+    # (module, function, row-stacked parameter, number of rows)
+    (HYP, "Segment._compute_aux_data", "end_data", 2),
+]
+
+
+def rule_homdiv1(ctx):
+    r = ctx.r
+    r.rule("HOMDIV1", "the two rows of a segment are REPRESENTATIVES, each "
+                      "defined up to its own non-zero scalar: a denominator "
+                      "in the ideal-endpoint computation is homogeneous in "
+                      "each row (a single multidegree in the Gram entries "
+                      "a11, a12, a22). An inhomogeneous one, "
+                      "a11 - 2 a12 + a22 = <p1 - p2, p1 - p2>, is a "
+                      "polynomial in the relative scale t of the two lifts, "
+                      "a11 - 2t a12 + t^2 a22, with a real root whenever "
+                      "a12^2 >= a11 a22 -- for every pair of causal vectors: "
+                      "some lifts of EVERY segment (6% of small-integer "
+                      "pairs) divide by zero and the ideal endpoints, "
+                      "circle parameters and drawings are NaN")
+    for rel, qn, param, nrows in HOMDIV_ROWS:
+        f = ctx.p.get_function(rel, qn)
+        r.analysed(f)
+        if param not in f.params:
+            r.note("HOMDIV1", loc(f, f.node), qn,
+                   f"parameter `{param}` is gone (not judged)")
+            continue
+        defs = single_defs(f.node)
+        n = 0
+        for d in ast.walk(f.node):
+            if not (isinstance(d, ast.BinOp) and isinstance(d.op, ast.Div)):
+                continue
+            n += 1
+            ds = _degset(d.right, defs, param, nrows)
+            inst = f"{qn}:/{dotted(d.right)[:30]}"
+            if ds is None:
+                r.note("HOMDIV1", loc(f, d), inst,
+                       f"the degree of the denominator "
+                       f"`{dotted(d.right)[:60]}` is not determined "
+                       "(not judged)")
+            elif len(ds) == 1:
+                r.ok("HOMDIV1", inst, loc(f, d), dotted(d.right)[:60],
+                     f"homogeneous of degree {next(iter(ds))}")
+            else:
+                r.violation(
+                    "HOMDIV1", f"{f.fq}|div@{sorted(ds)}", loc(f, d),
+                    dotted(d)[:100],
+                    f"the denominator `{dotted(d.right)[:60]}` mixes the "
+                    f"multidegrees {sorted(ds)} of the two representatives: "
+                    "whether it vanishes depends on the chosen lifts, not "
+                    "on the segment. Segment([[2,1,0],[3,1,1]]) (difference "
+                    "(1,0,1) is lightlike) stores all-NaN ideal endpoints; "
+                    "the same segment written [[2,1,0],[6,2,2]] is fine",
+                    instance=f"{qn}:inhomogeneous-denominator")
+        if n == 0:
+            r.ok("HOMDIV1", f"{qn}:no-division", loc(f, f.node), "",
+                 "no division in the computation")
